@@ -63,6 +63,76 @@ def check(run, repo, world):
     _bit_modes(run, world, mod, c)
     _init(run, world, mod, c)
     _add_contains_views(run, world, mod, c)
+    _other_operators(run, repo, world, mod, c)
+
+
+# ---------------------------------------------------------------------------
+_ARITH = ("add", "sub", "mul", "matmul", "truediv", "floordiv", "mod",
+          "pow", "lshift", "rshift", "and", "or", "xor")
+
+
+def _other_operators(run, repo, world, mod, c):
+    """`frame + x` raises TypeError for every x that is not a frame
+    (R-FRAME-EXC on __add__).  That stays true of `x + frame` and
+    `frame += x` only while no reflected / in-place / further arithmetic
+    operator of the Frame family hands back a result for a non-frame
+    operand: every path of such a method that returns something other than
+    NotImplemented has tested the operand to be a Frame."""
+    run.rule("R-FRAME-OPS", "reflected / in-place / further arithmetic "
+             "operators of the Frame family give a result only for a frame "
+             "operand (else NotImplemented or an exception)")
+    fam = [k for k in world.class_order if c in k.mro]
+    names = {"__r%s__" % a for a in _ARITH} | {"__i%s__" % a for a in _ARITH} \
+        | {"__%s__" % a for a in _ARITH if a != "add"}
+    n = 0
+    for k in fam:
+        for name, (kind, fn) in k.methods.items():
+            if name not in names:
+                continue
+            n += 1
+            params = [a.arg for a in fn.args.args]
+            other = params[1] if len(params) > 1 else None
+            f2 = normalise(fn, world, k.mod, k, aliases="params")
+            try:
+                ps = paths.summaries(f2)
+            except paths.Unsupported as e:
+                raise AnalysisError("%s.%s: %s" % (k.qname, name, e))
+            for p_ in ps:
+                if p_.kind == "raise":
+                    continue
+                e = p_.expr if p_.kind == "return" else None
+                if isinstance(e, ast.Name) and e.id == "NotImplemented":
+                    continue
+                tested = any(
+                    b_ and isinstance(t_, ast.Call) and unparse(
+                        t_.func) == "isinstance" and len(t_.args) == 2 and
+                    unparse(t_.args[0]) == other and all(
+                        (lambda kk: kk is not None and c in kk.mro)(
+                            world.resolve_class(k.mod, x))
+                        for x in (t_.args[1].elts if isinstance(
+                            t_.args[1], ast.Tuple) else [t_.args[1]]))
+                    for (t_, b_) in p_.conds)
+                run.ob("R-FRAME-OPS", "%s.%s" % (k.qname, name), tested,
+                       "%s.%s returns `%s` under %s without having tested "
+                       "`%s` to be a Frame: an operand that is not a frame "
+                       "no longer raises TypeError" % (
+                           k.name, name,
+                           unparse(e) if e is not None else "None",
+                           [(unparse(t_, 50), b_) for (t_, b_) in p_.conds],
+                           other), where(repo.mod(k.mod), fn))
+    # expected count on the pinned tree is zero: a built-in positive example
+    # keeps the path reading honest on every run (the stored variant
+    # C05-r8-m1 exercises the whole rule in the thorough tier)
+    ex = ast.parse("def __radd__(self, other):\n    if other == 0:\n"
+                   "        return self\n    return NotImplemented\n"
+                   ).body[0]
+    exps = paths.summaries(ex)
+    flagged = [p_ for p_ in exps if p_.kind == "return" and not (
+        isinstance(p_.expr, ast.Name) and p_.expr.id == "NotImplemented")]
+    if len(exps) != 2 or len(flagged) != 1:
+        raise AnalysisError("R-FRAME-OPS: the built-in example is no longer "
+                            "read as one result path and one declining path")
+    run.analysed["other arithmetic operators in the Frame family"] = n
 
 
 # ---------------------------------------------------------------------------
@@ -458,7 +528,7 @@ def _in_mode(p_, truths):
 
 
 def _frame_paths(world, c, name):
-    fn = normalise(c.methods[name][1], world, FR, c, aliases=False,
+    fn = normalise(c.methods[name][1], world, FR, c, aliases="params",
                    primitives=("__init__",))
     return fn, paths.summaries(fn)
 
